@@ -38,3 +38,12 @@ pub open spec fn gate_sum<F: RichField + Extendable<D>, const D: usize>(cd: Comm
     }
 }
 
+// well-formedness of the common data as far as the gate combination reads them (CommonCircuitData built by CircuitBuilder::build)
+pub open spec fn common_gates_ok<F: RichField + Extendable<D>, const D: usize>(cd: CommonCircuitData<F, D>, consts: Seq<F::Extension>, wires: Seq<F::Extension>, pih: HashOut<F>) -> bool {
+    &&& cd.selectors_info.selector_indices.len() == cd.gates.len()
+    &&& forall|i: int| 0 <= i < cd.gates.len() ==> (#[trigger] cd.selectors_info.selector_indices[i]) < cd.selectors_info.groups.len()
+    &&& forall|i: int| 0 <= i < cd.gates.len() ==> (#[trigger] cd.selectors_info.selector_indices[i]) < consts.len()
+    &&& cd.selectors_info.groups.len() + cd.num_lookup_selectors <= consts.len()
+    &&& forall|i: int| 0 <= i < cd.gates.len() ==> (#[trigger] gate_filtered::<F, D>(cd, consts, wires, pih, i)).len() <= cd.num_gate_constraints
+}
+
